@@ -1,8 +1,382 @@
-/- placeholder: executable model to be written (see tools/BUILDER_BRIEF.md) -/
+/-
+Model of `namepool/pool.go` + `namepool/name.go` (property C18).
+
+Go code (complete):
+
+    Pool(format)      : idCounter = 0, idPool = sync.Pool{ New: id := atomic.AddUint64(&idCounter, 1) }
+    pool.Acquire()    : id := idPool.Get(); return &Name{pool, fmt.Sprintf(format, *id), id}
+    pool.Release(n)   : if n == nil || n.id == nil { return }; idPool.Put(n.id); *n = Name{}
+    (n *Name).Release : n.pool.Release(n)         -- evaluates n.pool first: nil *Name ⇒ nil dereference
+    (n Name).Name()   : n.name                    (n Name).ID() : *n.id   -- nil id ⇒ nil dereference
+
+What is modelled
+* the pool as a nondeterministic state machine `State = { counter, pool, held }`; the resolution of
+  every nondeterministic choice is an explicit argument of the op (`Choice`, the `drop` list of `gc`):
+  - `acquire h (.pop id)` : `sync.Pool.Get` hands out ANY pooled id (no order guarantee),
+  - `acquire h .mint`     : `sync.Pool.Get` found nothing (per-P caches, GC, race-mode drops) and
+                            called `New` = `counter+1`; minting is always enabled,
+  - `release h`           : `Put` of the id + `*name = Name{}`; a cleared / zero Name is a no-op,
+  - `releaseNil`          : `pool.Release(nil)`, a no-op,
+  - `gc drop`             : a garbage collection (or the race-mode `Put` that drops its argument)
+                            forgets any subset of the pooled ids.
+  A handle `h` is the identity of one `Name` object; it is in `held` exactly while the object's `id`
+  pointer is non-nil. `nameOf` gives the field values of the object.
+* `fmt.Sprintf(format, uint64)` for formats made of literal bytes, `%%` and `%d`
+  (`Fmt`, `parseFmt`, `render`): first `%d` ↦ decimal id, later `%d` ↦ `%!d(MISSING)`, no `%d` at all ↦
+  `%!(EXTRA uint64=<id>)` appended (Go's quirk for the "format without verb" case that the package
+  documentation allows). Every such format has the shape `pre ++ decimal id ++ suf`. Any other verb or
+  flag is outside the model (`unsupported-format`).
+* the history validator `validate` (line kinds `hist` recorded / `neg` corrupted / `syn` synthetic —
+  the same validator, the kind only tells the harness oracle what to expect) and the sequential API
+  script interpreter `runScript` (line kind `api`), both reachable through `run`.
+* panics: `(*Name)(nil).Release()` and `ID()` / `Name()` through a nil pointer or `ID()` of a cleared
+  Name are explicit `panic…` outcomes of the script interpreter; `pool.Release` has none.
+
+Trusted base (not proved here): `sync.Pool` and `atomic.AddUint64` are linearizable (a concurrent
+execution is equivalent to a sequence of the ops above), a `Name` is not copied by value (a copy
+shares the id pointer and can be released a second time), `fmt` prints `%d` of a `uint64` as the
+decimal digits (checked by the harness on every recorded text).
+-/
 import Dblib.Util
 
 namespace Dblib.NamePool
 
-def run (_args : List String) : String := "todo"
+abbrev Handle := Nat
+
+/-! ## decimal digits and the format -/
+
+/-- ASCII decimal representation (what `%d` prints for an unsigned integer); `fuel` bounds the
+number of digits (structural recursion, so that the kernel can evaluate it) -/
+def decimalFuel : Nat → Nat → Bytes
+  | 0, _ => []
+  | fuel + 1, n =>
+    if n < 10 then [UInt8.ofNat (48 + n)]
+    else decimalFuel fuel (n / 10) ++ [UInt8.ofNat (48 + n % 10)]
+
+def decimal (n : Nat) : Bytes := decimalFuel (n + 1) n
+
+/-- normal form of a supported format: text = `pre ++ decimal id ++ suf` -/
+structure Fmt where
+  pre : Bytes
+  suf : Bytes
+deriving Repr, DecidableEq
+
+def Fmt.render (f : Fmt) (id : Nat) : Bytes := f.pre ++ decimal id ++ f.suf
+
+inductive Seg
+  | lit (b : UInt8)
+  | verb
+deriving Repr, DecidableEq
+
+/-- literal bytes, `%%`, `%d`; anything else after `%` (or a trailing `%`) is unsupported -/
+def parseSegs : Bytes → Option (List Seg)
+  | [] => some []
+  | [b] => if b = 37 then none else some [.lit b]
+  | a :: b :: r =>
+    if a = 37 then
+      if b = 37 then (parseSegs r).map (Seg.lit 37 :: ·)
+      else if b = 100 then (parseSegs r).map (Seg.verb :: ·)
+      else none
+    else (parseSegs (b :: r)).map (Seg.lit a :: ·)
+
+/-- `%!d(MISSING)` -/
+def missingBytes : Bytes := [37, 33, 100, 40, 77, 73, 83, 83, 73, 78, 71, 41]
+/-- `%!(EXTRA uint64=` -/
+def extraBytes : Bytes := [37, 33, 40, 69, 88, 84, 82, 65, 32, 117, 105, 110, 116, 54, 52, 61]
+
+/-- what Sprintf prints for the segments after the first `%d` (the operand is used up) -/
+def renderRest : List Seg → Bytes
+  | [] => []
+  | .lit b :: r => b :: renderRest r
+  | .verb :: r => missingBytes ++ renderRest r
+
+/-- split at the first `%d` -/
+def splitSegs : List Seg → Bytes × Option (List Seg)
+  | [] => ([], none)
+  | .lit b :: r => let (p, s) := splitSegs r; (b :: p, s)
+  | .verb :: r => ([], some r)
+
+def fmtOfSegs (segs : List Seg) : Fmt :=
+  match splitSegs segs with
+  | (p, some rest) => ⟨p, renderRest rest⟩
+  | (p, none) => ⟨p ++ extraBytes, [41]⟩
+
+def parseFmt (format : Bytes) : Option Fmt := (parseSegs format).map fmtOfSegs
+
+/-! ## the pool state machine -/
+
+structure State where
+  counter : Nat
+  pool : List Nat
+  held : List (Handle × Nat)
+deriving Repr, DecidableEq
+
+def init : State := ⟨0, [], []⟩
+
+inductive Choice
+  | pop (id : Nat)
+  | mint
+deriving Repr, DecidableEq
+
+inductive Op
+  | acquire (h : Handle) (c : Choice)
+  | release (h : Handle)
+  | releaseNil
+  | gc (drop : List Nat)
+deriving Repr, DecidableEq
+
+def heldIds (s : State) : List Nat := s.held.map (·.2)
+
+def isHeld (s : State) (h : Handle) : Bool := (s.held.lookup h).isSome
+
+/-- `Acquire` into a fresh Name object `h`. A choice that is not enabled (popping an id that is not
+pooled) and an `h` that already denotes a live Name are not steps of the system: the state stutters. -/
+def acquire (s : State) (h : Handle) : Choice → State
+  | .pop id =>
+    if isHeld s h then s
+    else if s.pool.contains id then { s with pool := s.pool.erase id, held := (h, id) :: s.held }
+    else s
+  | .mint =>
+    if isHeld s h then s
+    else { counter := s.counter + 1, pool := s.pool, held := (h, s.counter + 1) :: s.held }
+
+/-- `pool.Release(name)` for a non-nil `name`: `name.id == nil` ⇒ return; else Put + clear. -/
+def release (s : State) (h : Handle) : State :=
+  match s.held.lookup h with
+  | none => s
+  | some id => { s with pool := id :: s.pool, held := s.held.filter (fun p => p.1 != h) }
+
+def gc (s : State) (drop : List Nat) : State :=
+  { s with pool := s.pool.filter (fun id => !drop.contains id) }
+
+def step (s : State) : Op → State
+  | .acquire h c => acquire s h c
+  | .release h => release s h
+  | .releaseNil => s
+  | .gc drop => gc s drop
+
+def exec (s : State) (ops : List Op) : State := ops.foldl step s
+
+/-- the fields of the Go struct `Name` -/
+structure Name where
+  text : Bytes
+  id : Option Nat      -- `*uint64`, `none` = nil
+  hasPool : Bool       -- `pool != nil`
+deriving Repr, DecidableEq
+
+def Name.zero : Name := ⟨[], none, false⟩
+
+/-- field values of the Name object `h` (an object that is not held is the zero Name) -/
+def nameOf (f : Fmt) (s : State) (h : Handle) : Name :=
+  match s.held.lookup h with
+  | some id => ⟨f.render id, some id, true⟩
+  | none => Name.zero
+
+/-! ## validator of a recorded history -/
+
+inductive Ev
+  | acq (h : Handle) (id : Nat) (text : Bytes)   -- logged after `Acquire` returned
+  | rel (h : Handle)                              -- logged before `Release` is called
+  | clr (h : Handle) (text : Bytes)               -- logged after `Release` returned: `Name()` of the object
+  | relNil
+  | gc
+  | crash                                         -- a pool call panicked in the recording harness
+deriving Repr, DecidableEq
+
+structure V where
+  held : List (Handle × Nat)
+  seen : List Nat
+  maxLive : Nat
+  reused : Nat
+deriving Repr, DecidableEq
+
+def V.init : V := ⟨[], [], 0, 0⟩
+
+def checkEv (f : Fmt) (v : V) : Ev → Except String V
+  | .acq h id text =>
+    if id = 0 then .error "zero-id"
+    else if (v.held.lookup h).isSome then .error "handle-in-use"
+    else if (v.held.map (·.2)).contains id then .error "dup-id"
+    else if text ≠ f.render id then .error "bad-text"
+    else
+      let held := (h, id) :: v.held
+      let old := v.seen.contains id
+      .ok { held := held,
+            seen := if old then v.seen else id :: v.seen,
+            maxLive := max v.maxLive held.length,
+            reused := if old then v.reused + 1 else v.reused }
+  | .rel h => .ok { v with held := v.held.filter (fun p => p.1 != h) }
+  | .clr h text =>
+    if (v.held.lookup h).isSome then .error "not-released"
+    else if text ≠ [] then .error "not-cleared"
+    else .ok v
+  | .relNil => .ok v
+  | .gc => .ok v
+  | .crash => .error "panic"
+
+inductive Verdict
+  | ok (v : V)
+  | violation (idx : Nat) (reason : String)
+deriving Repr, DecidableEq
+
+def validateFrom (f : Fmt) (i : Nat) (v : V) : List Ev → Verdict
+  | [] => .ok v
+  | e :: es =>
+    match checkEv f v e with
+    | .error r => .violation i r
+    | .ok v' => validateFrom f (i + 1) v' es
+
+def validate (f : Fmt) (evs : List Ev) : Verdict := validateFrom f 0 V.init evs
+
+def Verdict.show : Verdict → String
+  | .ok v => s!"ok {v.maxLive} {v.seen.length} {v.reused}"
+  | .violation i r => s!"violation {i} {r}"
+
+/-! ## line protocol -/
+
+/-- decimal token: 1..20 digits, value < 2^64 (handles and ids are `uint64` in the harness) -/
+def parseU64 (s : String) : Option Nat :=
+  let cs := s.toList
+  if cs.isEmpty || cs.length > 20 || !cs.all (fun c => '0' ≤ c && c ≤ '9') then none
+  else
+    let n := cs.foldl (fun acc c => acc * 10 + (c.toNat - 48)) 0
+    if n < 18446744073709551616 then some n else none
+
+def parseEv (tok : String) : Option Ev :=
+  match tok.splitOn ":" with
+  | ["a", h, id, hex] =>
+    match parseU64 h, parseU64 id, fromHex hex with
+    | some h, some id, some t => some (.acq h id t)
+    | _, _, _ => none
+  | ["r", h] => (parseU64 h).map .rel
+  | ["c", h, hex] =>
+    match parseU64 h, fromHex hex with
+    | some h, some t => some (.clr h t)
+    | _, _ => none
+  | ["rn"] => some .relNil
+  | ["g"] => some .gc
+  | ["x"] => some .crash
+  | _ => none
+
+def parseEvs : List String → Option (List Ev)
+  | [] => some []
+  | t :: ts =>
+    match parseEv t, parseEvs ts with
+    | some e, some es => some (e :: es)
+    | _, _ => none
+
+/-! ### sequential API script (`pool api <formathex> <op>…`)
+
+Script variables are `*Name` pointers named by a number. `A7` : `v7 = pool.Acquire()`,
+`Z7` : `v7 = &Name{}`, `Q7` : `v7 = nil`, `P7` : `pool.Release(v7)`, `M7` : `v7.Release()`,
+`N` : `pool.Release(nil)`, `I7` : `v7.ID()`, `S7` : `v7.Name()`, `G` : two garbage collections.
+Overwriting a variable that holds a live Name is not part of the script language (`bad-op`).
+The answer has one token per op; a panic ends the script. -/
+
+structure Script where
+  st : State
+  objs : List Handle       -- variables that point to a Name object (all others are nil pointers)
+deriving Repr, DecidableEq
+
+def Script.init : Script := ⟨NamePool.init, []⟩
+
+/-- a fixed resolution of the nondeterminism (the answer tokens do not mention ids) -/
+def firstChoice (s : State) : Choice :=
+  match s.pool with
+  | id :: _ => .pop id
+  | [] => .mint
+
+/-- what the harness can observe about variable `h`: nil pointer / cleared Name / live Name -/
+def obs (sc : Script) (h : Handle) : String :=
+  if !sc.objs.contains h then "nil"
+  else if isHeld sc.st h then "live" else "cleared"
+
+inductive ScriptOp
+  | acq (h : Handle) | zero (h : Handle) | setNil (h : Handle)
+  | poolRel (h : Handle) | methRel (h : Handle) | relNil
+  | getId (h : Handle) | getName (h : Handle) | gc
+deriving Repr, DecidableEq
+
+/-- `.ok (state, token)` or `.error finalToken` (panic / malformed) -/
+def scriptStep (sc : Script) : ScriptOp → Except String (Script × String)
+  | .acq h =>
+    if isHeld sc.st h then .error "bad-op"
+    else .ok ({ st := acquire sc.st h (firstChoice sc.st), objs := h :: sc.objs.erase h }, "a")
+  | .zero h =>
+    if isHeld sc.st h then .error "bad-op"
+    else .ok ({ sc with objs := h :: sc.objs.erase h }, "z")
+  | .setNil h =>
+    if isHeld sc.st h then .error "bad-op"
+    else .ok ({ sc with objs := sc.objs.erase h }, "q")
+  | .poolRel h =>
+    -- name == nil ⇒ return; otherwise the guarded Put + clear
+    let sc' := if sc.objs.contains h then { sc with st := release sc.st h } else sc
+    .ok (sc', "p:" ++ obs sc' h)
+  | .methRel h =>
+    -- `name.pool` dereferences the receiver: a nil *Name panics (Go specification).
+    -- For a zero / cleared Name `name.pool` is a nil *pool, whose Release returns at `name.id == nil`.
+    if !sc.objs.contains h then .error "panic-nilrecv"
+    else
+      let sc' := { sc with st := release sc.st h }
+      .ok (sc', "m:" ++ obs sc' h)
+  | .relNil => .ok (sc, "n")
+  | .getId h =>
+    if sc.objs.contains h && isHeld sc.st h then .ok (sc, "i") else .error "panic"
+  | .getName h =>
+    if !sc.objs.contains h then .error "panic"
+    else .ok (sc, if isHeld sc.st h then "s:text" else "s:empty")
+  | .gc => .ok ({ sc with st := NamePool.gc sc.st sc.st.pool }, "g")
+
+def parseScriptOp (tok : String) : Option ScriptOp :=
+  match tok.toList with
+  | ['N'] => some .relNil
+  | ['G'] => some .gc
+  | c :: rest =>
+    match parseU64 (String.ofList rest) with
+    | none => none
+    | some h =>
+      if c = 'A' then some (.acq h) else if c = 'Z' then some (.zero h)
+      else if c = 'Q' then some (.setNil h) else if c = 'P' then some (.poolRel h)
+      else if c = 'M' then some (.methRel h) else if c = 'I' then some (.getId h)
+      else if c = 'S' then some (.getName h) else none
+  | [] => none
+
+def parseScript : List String → Option (List ScriptOp)
+  | [] => some []
+  | t :: ts =>
+    match parseScriptOp t, parseScript ts with
+    | some o, some os => some (o :: os)
+    | _, _ => none
+
+def runScript (sc : Script) : List ScriptOp → List String
+  | [] => []
+  | o :: os =>
+    match scriptStep sc o with
+    | .error t => [t]
+    | .ok (sc', t) => t :: runScript sc' os
+
+/-- `pool hist|neg|syn <formathex> <ev>…` (recorded / corrupted / synthetic history: same validator,
+the kind only tells the harness oracle what to expect) and `pool api <formathex> <op>…` -/
+def run (args : List String) : String :=
+  match args with
+  | kind :: fhex :: rest =>
+    if kind = "hist" || kind = "neg" || kind = "syn" then
+      match fromHex fhex, parseEvs rest with
+      | some fb, some evs =>
+        match parseFmt fb with
+        | some f => (validate f evs).show
+        | none => "unsupported-format"
+      | _, _ => "bad-op"
+    else if kind = "api" then
+      match fromHex fhex, parseScript rest with
+      | some fb, some ops =>
+        match parseFmt fb with
+        | some _ =>
+          let out := runScript Script.init ops
+          if out.contains "bad-op" then "bad-op" else joinSep " " ("ok" :: out)
+        | none => "unsupported-format"
+      | _, _ => "bad-op"
+    else "bad-op"
+  | _ => "bad-op"
 
 end Dblib.NamePool
